@@ -24,8 +24,23 @@ def many_ids(rng, version, hist):
     return hist
 
 
+def odd_senders(rng, version, hist):
+    """id requests whose sender field is not the broadcast address: a node that already has an id (static,
+    presented, or handed out earlier) asks for one, or the request carries 0 / any other id"""
+    if rng.random() < 0.3:
+        known = [int(op[1].split(";")[0]) for op in hist
+                 if op[0] == "L" and op[1].split(";")[0].isdigit() and int(op[1].split(";")[0]) < 255]
+        for _ in range(rng.randrange(1, 4)):
+            who = rng.choice(known) if known and rng.random() < 0.6 else rng.choice([0, 1, 2, 40, 254, rng.randrange(255)])
+            k = rng.randrange(len(hist) + 1)
+            while k < len(hist) and hist[k][0] == "R":      # not between a stop and its restart
+                k += 1
+            hist = hist[:k] + [("L", f"{who};255;3;0;3;\n")] + hist[k:]
+    return hist
+
+
 CFG = {"kinds": ["base", "base", "tcp", "mqtt", "base-nocb", "mqtt-nocb", "base-raisecb", "tcp-raisecb"], "quick": 260, "thorough": 6000, "persist": ["none", "json", "pickle"], "lengths": [10, 20, 35],
-       "bias": {"idreq": 8, "save": 2, "restart": 3, "pres_node": 2}, "malformed": 0.1, "post": [many_ids]}
+       "bias": {"idreq": 8, "save": 2, "restart": 3, "pres_node": 2}, "malformed": 0.1, "post": [many_ids, odd_senders]}
 
 
 def _stop_restart_idreq(version, hist):
@@ -41,9 +56,86 @@ def relevant(hist, obs):
         for t in s.split(","))) >= 1
 
 
+ID_RESPONSE = ";255;3;0;4;"
+
+
+def unpaired_surrogate_part(res):
+    """A stored text with unpaired surrogate code points (a client that decoded bytes with surrogateescape hands
+    it to the gateway; it is not text the Lean model can hold, so this is judged on the real code only): ids
+    handed out after it still reach the file a clean stop leaves, in both formats."""
+    import os
+    import shutil
+    import tempfile
+    work = tempfile.mkdtemp(prefix="verif-c06-")
+    try:
+        for fmt in ("json", "pickle"):
+            for flavour in ("sync", "async"):
+                path = os.path.join(work, f"sur-{flavour}.{fmt}")
+                rep = {"op": "surrogate-text", "fmt": fmt, "flavour": flavour}
+                got = surrogate_session(flavour, path)
+                res.evaluations += 1
+                res.count("unpaired-surrogate-text:" + fmt)
+                if isinstance(got, str):
+                    res.oracle_failures.append({"key": {"kind": "surrogate-text", "what": "raised"}, "replay": rep,
+                                                "what": f"{flavour} gateway, {fmt}: {got}"})
+                    continue
+                before, after = got
+                twice = [i for i in after if i in before]
+                if twice or not after:
+                    res.oracle_failures.append({
+                        "key": {"kind": "surrogate-text", "what": "id-twice" if twice else "no-id"}, "replay": rep,
+                        "what": f"{flavour} gateway, {fmt}: ids {before} were handed out (a sketch name with an unpaired "
+                                f"surrogate was stored in between), stop(), restart on the same file: the next id "
+                                f"requests are answered with {after}"})
+    finally:
+        shutil.rmtree(work, ignore_errors=True)
+
+
+def surrogate_session(flavour, path):
+    import asyncio
+
+    def ids(conn):
+        return [int(w.decode().strip().split(";")[5]) for w in conn.written if ID_RESPONSE in w.decode()]
+
+    def feed(gw, line):
+        gw.tasks.transport.send(gw.logic(line))
+    gw, conn = stopwin.make(flavour, path)
+    try:
+        feed(gw, stopwin.ID_REQUEST)
+        feed(gw, "1;255;0;0;17;2.2\n")
+        feed(gw, "1;255;3;0;11;K\udcfcche\n")
+        feed(gw, stopwin.ID_REQUEST)
+        try:
+            gw.tasks.persistence.save_sensors()           # a periodic save (its failure is logged, not raised)
+        except Exception:  # noqa: BLE001
+            pass
+        feed(gw, stopwin.ID_REQUEST)
+        try:
+            if flavour == "sync":
+                gw.stop()
+            else:
+                loop = asyncio.new_event_loop()
+                try:
+                    loop.run_until_complete(gw.stop())
+                    loop.run_until_complete(loop.shutdown_default_executor())
+                finally:
+                    loop.close()
+        except Exception:  # noqa: BLE001   (C14's business; the ids are what is judged here)
+            pass
+        before = ids(conn)
+        gw2, conn2 = stopwin.make(flavour, path)
+        gw2.tasks.persistence.safe_load_sensors()
+        feed(gw2, stopwin.ID_REQUEST)
+        feed(gw2, stopwin.ID_REQUEST)
+        return before, ids(conn2)
+    except Exception as e:  # noqa: BLE001
+        return f"raised {type(e).__name__}: {e}"
+
+
 def run(tier, seed, driver):
     res = gwfam.run_family("C06", tier, seed, driver, CFG, relevant)
     stopwin.part(res, "C06", driver, tier)
+    unpaired_surrogate_part(res)
     res.rule = ("histories biased to id requests, node presentations of ids 0..255 (incl. 250..255 to reach the "
                 "allocator bound), save ticks, stop/restart cycles, both formats; non-trivial = at least one id "
                 "response emitted; distinct by op script")
@@ -53,4 +145,16 @@ def run(tier, seed, driver):
 def replay(payload):
     if payload.get("replay", {}).get("op") == "stop-window":
         return stopwin.replay(payload["replay"])
+    if payload.get("replay", {}).get("op") == "surrogate-text":
+        import os
+        import shutil
+        import tempfile
+        r = payload["replay"]
+        work = tempfile.mkdtemp(prefix="verif-c06-")
+        try:
+            got = surrogate_session(r["flavour"], os.path.join(work, "sur." + r["fmt"]))
+        finally:
+            shutil.rmtree(work, ignore_errors=True)
+        print("ids before the stop, ids after the restart:", got)
+        return 1 if isinstance(got, str) or not got[1] or any(i in got[0] for i in got[1]) else 0
     return gwfam.replay_family("C06", payload)
